@@ -241,7 +241,7 @@ def gen(tier, seed):
             seqs = [s for s in seqs if len(s) == 1 or s[0][0] == "fit" or rng.rand() < 0.3]
             seqs += [tuple(menu[q] for q in rng.randint(0, len(menu), 3)) for _ in range(40)]
         ax_ = "y" if kind == "xy" else None
-        core = [(("fit",), ("set_all", 0.8)), (("fit",), ("constraint", 0)), (("fit",), ("data", 1)), (("fit",), ("limit", 0)), (("fit",), ("fix", 0, None)), (("constraint", 0), ("fit",)), (("fit",), ("fit",)), (("data", 1), ("fit",), ("set", 1, 0.5))]
+        core = [(("fix", 1, 1.0), ("release", 1)), (("limit", 0), ("fix", 0, None), ("release", 0)), (("fix", 1, 1.0), ("fit",), ("release", 1), ("fit",)), (("limit", 0), ("unlimit", 0)), (("fit",), ("set_all", 0.8)), (("fit",), ("constraint", 0)), (("fit",), ("data", 1)), (("fit",), ("limit", 0)), (("fit",), ("fix", 0, None)), (("constraint", 0), ("fit",)), (("fit",), ("fit",)), (("data", 1), ("fit",), ("set", 1, 0.5))]
         if kind != "unbinned":
             rel = ("add", True, "model", 0, ax_)
             core += [(rel, ("fit",), ("set_all", 0.8)), (rel, ("fit",), ("add", False, "data", 0.5, ax_)), (rel, ("fit",), ("set", 0, 1.0), ("fit",)), (rel, ("fit",), ("disable", 1)), (("fit",), ("add", False, "data", 0.5, ax_)), (("fit",), ("add_matrix",)),
@@ -343,9 +343,23 @@ def no_history(inp):
     c = canonical(inp)
     # parameter state of the history fit, transferred through the public interface
     c.set_all_parameter_values(list(a.parameter_values))
-    fx = dict(a._fitter.fixed_parameters)
-    for n_ in fx:
-        c.fix_parameter(n_)          # at the value just transferred
+    fixed_now, limited_now = set(), set()          # from the operations themselves, not from the history fit's own book-keeping
+    for o in inp["ops"]:
+        if o[0] == "fix":
+            fixed_now.add(o[1])
+        elif o[0] == "release":
+            fixed_now.discard(o[1])
+        elif o[0] == "limit":
+            limited_now.add(o[1])
+        elif o[0] == "unlimit":
+            limited_now.discard(o[1])
+    for q_ in sorted(fixed_now):
+        c.fix_parameter(PAR[kind][q_])          # at the value just transferred
+    for q_ in sorted(limited_now):
+        c.limit_parameter(PAR[kind][q_], ALT[kind][q_] - 3.0, ALT[kind][q_] + 3.0)
+    book = {"fixed": sorted(a._fitter.fixed_parameters), "limited": sorted(a._fitter.limited_parameters)}, {"fixed": sorted(c._fitter.fixed_parameters), "limited": sorted(c._fitter.limited_parameters)}
+    if book[0] != book[1]:
+        return {"got": book[0], "expected": book[1], "witness_class": f"fixed-limited-bookkeeping:history-{'-'.join(o[0] for o in inp['ops'][-3:])}:{inp['backend']}:{kind}"}
     oa, oc = observe(a, kind, False), observe(c, kind, False)
     for n_ in ("did_fit",):
         oa.pop(n_, None); oc.pop(n_, None)
